@@ -227,6 +227,8 @@ var registry = []propertySpec{
 		Harnesses: []harnessSpec{
 			{Name: "VerifC19_Names", Pkg: "html", Quick: tierSpec{Cases: 10}, Thorough: tierSpec{Cases: 10}, Sched: -1,
 				Bounds: "a 2-person document plus one hostile element: 2 symbolic bytes (0x21-0x7e) in a source pointer, an individual pointer, a surname or a place name; two people whose names collapse to one key; places named like fixed pages; a person whose name collapses to the key of a place that is also written in three spellings; all page groups, show mode"},
+			{Name: "VerifC19_Directory", Pkg: "html", Quick: tierSpec{Cases: 6}, Thorough: tierSpec{Cases: 6}, Sched: -1,
+				Bounds: "the real DirectoryFileWriter on a modelled file system (os.Create / OpenFile / ReadFile with O_CREATE, O_TRUNC, O_EXCL, O_APPEND semantics): a document published into a directory that already holds a longer site, a shorter site or the same site with more page groups, against a fresh directory; jobs 1 and 2; a missing output directory"},
 			{Name: "VerifC19_Determinism", Pkg: "html", Quick: tierSpec{Cases: 6}, Thorough: tierSpec{Cases: 6}, Sched: -1, MapOrder: true, Invariant: []string{"site"},
 				Bounds: "a 4-person / 1-family / 1-source document in 3 visibility modes x jobs 1,2, preceded or not by publishing another document in the same execution, under four map iteration policies applied to every map range (insertion order, reversed, rotated, adjacent pairs swapped) with the deterministic goroutine scheduler"},
 			{Name: "VerifC19_Races", Pkg: "html", Quick: tierSpec{Cases: 6}, Thorough: tierSpec{Cases: 6}, Sched: -2, Race: true,
